@@ -209,15 +209,42 @@ Definition f_positive_finite (d : float) : bool := PrimFloat.ltb 0%float d && Pr
 Definition f_get_distance (tofloat : list ascii -> float) :=
   get_distance tofloat f_positive_finite PrimFloat.mul units_table.
 
-(* _to_meters / calc_cellsize: (cx * UNITS[unit], abs(cy * UNITS[unit])); the unit is looked up
-   as it is (no normalisation) — None = KeyError *)
-Definition f_calc_cellsize (cx cy : float) (unit : list ascii) : option (float * float) :=
-  match lookup_unit unit units_table with
-  | Some f => Some (PrimFloat.mul cx f, PrimFloat.abs (PrimFloat.mul cy f))
-  | None => None
-  end.
-(* calc_res: (last - first) / (n - 1) *)
-Definition f_calc_res (first last nm1 : float) : float := PrimFloat.div (PrimFloat.sub last first) nm1.
+(* ---- calc_cellsize (convolution.py) on top of get_dataarray_resolution / calc_res (utils.py) ---- *)
+Section CellSize.
+  Context {T : Type}.
+  Variables (sub mul div : T -> T -> T) (abs : T -> T).
+  Variable table : list (list ascii * T).
+  (* calc_res: (max - min) / (n - 1) along one axis *)
+  Definition calc_res (first last nm1 : T) : T := div (sub last first) nm1.
+  (* attrs['res']: a pair of numbers, one number, or absent / anything else *)
+  Inductive res_attr : Type := ResPair (a b : T) | ResScalar (a : T) | ResAbsent.
+  (* get_dataarray_resolution: the attribute wins, otherwise the coordinates *)
+  Definition resolution (attr : res_attr) (xmin xmax wm1 ymin ymax hm1 : T) : T * T :=
+    match attr with
+    | ResPair a b => (a, b)
+    | ResScalar a => (a, a)
+    | ResAbsent => (calc_res xmin xmax wm1, calc_res ymin ymax hm1)
+    end.
+  (* (cx * UNITS[unit], abs(cy * UNITS[unit])); the unit is looked up as it is (no normalisation)
+     — None = KeyError *)
+  Definition cellsize_of_res (cx cy : T) (unit : list ascii) : option (T * T) :=
+    match lookup_unit unit table with
+    | Some f => Some (mul cx f, abs (mul cy f))
+    | None => None
+    end.
+  (* calc_cellsize: unit = attrs['unit'] if present else DEFAULT_UNIT *)
+  Definition calc_cellsize (attr : res_attr) (unit_attr : option (list ascii))
+             (xmin xmax wm1 ymin ymax hm1 : T) : option (T * T) :=
+    let unit := match unit_attr with Some u => u | None => default_unit end in
+    let (cx, cy) := resolution attr xmin xmax wm1 ymin ymax hm1 in
+    cellsize_of_res cx cy unit.
+End CellSize.
+Arguments ResAbsent {T}.
+
+Definition f_calc_cellsize := cellsize_of_res PrimFloat.mul PrimFloat.abs units_table.
+Definition f_calc_res := @calc_res float PrimFloat.sub PrimFloat.div.
+Definition f_calc_cellsize_full :=
+  calc_cellsize PrimFloat.sub PrimFloat.mul PrimFloat.div PrimFloat.abs units_table.
 
 (* circle_kernel / annulus_kernel: r = _get_distance(str(radius)); half = int(r / cellsize) *)
 Section CircleKernel.
